@@ -186,13 +186,16 @@ void FSolver::getPrev2DB(int k, double &B1p, double &B2p) const
     c[2]=meshnode[n[1]].x - meshnode[n[0]].x;
     double da=(b[0]*c[1]-b[1]*c[0]);
 
+    // the node positions are in centimetres here (as in getPrevAxiB): centimetres to metres
+    double LengthConv = 0.01;
+
     B1p=0;
     B2p=0;
 
     for(int i=0;i<3;i++)
     {
-        B1p+=Aprev[n[i]]*c[i]/(da*LengthConvMeters[LengthUnits]);
-        B2p-=Aprev[n[i]]*b[i]/(da*LengthConvMeters[LengthUnits]);
+        B1p+=Aprev[n[i]]*c[i]/(da*LengthConv);
+        B2p-=Aprev[n[i]]*b[i]/(da*LengthConv);
     }
 }
 
